@@ -76,3 +76,24 @@ Theorem C11_prec_model_sb : forall t f n,
   prec_sb f t (measure_precision (repeat (tsc_spec t 0 f) n)) = true.
 Proof. exact prec_model_sb. Qed.
 Print Assumptions C11_prec_model_sb.
+
+(** The precision that is *reported* (and used by the sampling loop) goes
+    through a per-kind cache: for every sequence of queries in one process,
+    the answer to a query of kind [k] is the value measured by the first query
+    of kind [k] — queries of the other kind never change it. *)
+Theorem C11_precision_cached_per_kind : forall qs i k m,
+  nth_error qs i = Some (k, m) ->
+  nth_error (prec_queries pcache_empty qs) i = first_of_kind k qs.
+Proof. exact precision_cached_per_kind. Qed.
+Print Assumptions C11_precision_cached_per_kind.
+
+Theorem C11_precision_kinds_independent : forall qs k,
+  first_of_kind k (filter (fun q => tkind_eqb k (fst q)) qs) = first_of_kind k qs.
+Proof. exact precision_kinds_independent. Qed.
+Print Assumptions C11_precision_kinds_independent.
+
+Theorem C11_precq_model_sb : forall qs tscv,
+  Forall (fun q => match fst q with KTsc => snd q = tscv | KOs => 0 < snd q /\ snd q mod 1000 = 0 end) qs ->
+  precq_sb (map fst qs) tscv (prec_queries pcache_empty qs) = true.
+Proof. exact precq_model_sb. Qed.
+Print Assumptions C11_precq_model_sb.
